@@ -258,3 +258,39 @@ Proof. exact level_count. Qed.
 Theorem C04_bhiksha_config_read_back : forall cfg (ls : levels pb), (3 <= length ls)%nat ->
   bhiksha_config_from (trie_bytes true cfg (mk_trie true cfg ls)) (Z.of_nat (length (nth 0 ls []))) = (0%Z, Z.land cfg 255).
 Proof. exact bhiksha_config_read_back. Qed.
+
+(* ---- the loader's own size function on the model's file (C04/TrieLoaderSize.v).  trie_body_size is what lm/model.cc computes before it
+   maps the body: the header's order and counts decoded from their little-endian bytes, for the array trie the configured bits fetched from
+   the file behind the vocabulary and the unigram array (ArrayBhiksha::UpdateConfigFromBinary, order > 2), then
+   SortedVocabulary::Size(counts[0]) + TrieSearch::Size(counts, config).  On the file the model writes for any table with the loaders'
+   invariant this is exactly |vocabulary| + vocab_pad + |search| -- so C04_model_file_loads_back holds with NO hypothesis about sizes:
+   the trie and array-trie loaders accept the file, find the vocabulary and the search structure where they look, and (C03 / C01) answer
+   from that memory as the ARPA recursion prescribes. *)
+From Kenlm Require Import C04.TrieLoaderSize.
+Theorem C04_trie_body_size_agrees : forall (array : bool) cfg pm n V (t : atable) pz M words,
+  (2 <= n <= max_order)%nat -> (0 <= V < 2 ^ 32)%Z -> (0 <= cfg < 256)%Z -> TInv n (alookup t) M -> NoDup (map fst t) ->
+  (forall x, alookup t [x] <> None <-> (Z.of_N x < V)%Z) ->
+  (forall k e, alookup t k = Some e -> (- 2 ^ 24 < e_prob e < 2 ^ 24 /\ - 2 ^ 24 < e_bo e < 2 ^ 24)%Z) ->
+  (Z.of_nat (n * length t) < 2 ^ 57)%Z -> S (length words) = length (order_entries t 1) ->
+  let w := trie_written array cfg pm n t pz words in
+  forall lc (iv : bool) vocab1 search1 wm,
+  length vocab1 = length (sorted_vocab_bytes words) -> length search1 = length (C03.TrieImage.trie_image array cfg n t pz) ->
+  trie_body_size array lc (CrashProofs.final_image wm iv (contents_of w iv vocab1 search1)) = (length (w_vocab w) + w_pad w + length (w_search w))%nat.
+Proof. exact trie_body_size_agrees. Qed.
+
+Theorem C04_trie_file_loads_back : forall pm_ok words_ok (array : bool) cfg pm n V (t : atable) pz M words (iv : bool) vocab1 search1 wm lcfg,
+  let w := trie_written array cfg pm n t pz words in
+  (2 <= n <= max_order)%nat -> (0 <= V < 2 ^ 32)%Z -> (0 <= cfg < 256)%Z -> TInv n (alookup t) M -> NoDup (map fst t) ->
+  (forall x, alookup t [x] <> None <-> (Z.of_N x < V)%Z) ->
+  (forall k e, alookup t k = Some e -> (- 2 ^ 24 < e_prob e < 2 ^ 24 /\ - 2 ^ 24 < e_bo e < 2 ^ 24)%Z) ->
+  (Z.of_nat (n * length t) < 2 ^ 57)%Z -> S (length words) = length (order_entries t 1) ->
+  length vocab1 = length (sorted_vocab_bytes words) -> length search1 = length (C03.TrieImage.trie_image array cfg n t pz) ->
+  pm_ok [w_p0 w; w_p1 w; w_p2 w; w_p3 w] = true ->
+  l_model_type lcfg = w_model_type w -> l_search_version lcfg = w_search_version w ->
+  (l_enumerate lcfg = true -> iv = true) ->
+  (iv = true -> l_enumerate lcfg = true -> words_ok (w_counts w) (w_words w) = true) ->
+  load pm_ok (trie_body_size array) words_ok lcfg (CrashProofs.final_image wm iv (contents_of w iv vocab1 search1))
+    = Some (body_of w iv, if iv && l_enumerate lcfg then Some (w_words w) else None) /\
+  firstn (length (w_vocab w)) (skipn (header_size n) (body_of w iv)) = map Z.to_nat (sorted_vocab_bytes words) /\
+  firstn (length (w_search w)) (skipn (header_size n + length (w_vocab w) + 0) (body_of w iv)) = map Z.to_nat (C03.TrieImage.trie_image array cfg n t pz).
+Proof. exact trie_file_loads_back. Qed.
